@@ -351,6 +351,18 @@ func checkC12(c C12Case, o *Obs) (err error) {
 }
 
 func exhaustiveC12(thorough bool, emit func(C12Case) bool) {
+	// Real-data-shaped sequences (homopolymers, microsatellites, N gaps that change case inside
+	// the gap, soft-masked stretches) of every length up to 300 and on the size ladder.
+	for n := 1; n <= 300; n++ {
+		if !emit(C12Case{Src: realDNA(n, n, true, true), K: 1 + n%7, Spare: n % 4}) {
+			return
+		}
+	}
+	for i, n := range sizeLadder {
+		if !emit(C12Case{Src: realDNA(n, i, true, true), K: []int{3, 21, 31}[i%3], Dst: gen.B("x"), Spare: i % 4}) {
+			return
+		}
+	}
 	// Every byte value alone and embedded at each position of a fixed sequence.
 	base := []byte("ACgtN")
 	for b := 0; b < 256; b++ {
